@@ -537,10 +537,8 @@ public:
 private:
   void clean_()
   {
-    // Reorder
-    rangeComp_<T> comp;
-    std::sort(ranges_.begin(), ranges_.end(), comp);
-    // Remove empty intervals:
+    // Remove empty intervals first: the comparator is only a strict weak order
+    // on the non-empty, pairwise disjoint intervals that are left.
     auto it = ranges_.begin();
     while (it != ranges_.end())
     {
@@ -554,6 +552,9 @@ private:
         ++it;
       }
     }
+    // Reorder
+    rangeComp_<T> comp;
+    std::sort(ranges_.begin(), ranges_.end(), comp);
   }
 
 private:
